@@ -577,7 +577,7 @@ func FreeVarBinding(fv *ssa.FreeVar) ssa.Value {
 func ClosureCallSites(fn *ssa.Function) []ssa.CallInstruction {
 	par := fn.Parent()
 	if par == nil {
-		return nil
+		return helperCallSites(fn)
 	}
 	var out []ssa.CallInstruction
 	for _, pf := range WithClosures(par) {
@@ -607,4 +607,42 @@ func (w *DepWalker) bindClosureParam(p *ssa.Parameter) {
 			w.Walk(args[idx])
 		}
 	}
+}
+
+// CurrentProg is the program being analysed (set by Load); lets value-level helpers enumerate a package.
+var CurrentProg *Prog
+
+var helperSiteCache = map[*ssa.Function][]ssa.CallInstruction{}
+
+// helperCallSites: for an unexported named function or method (a private helper: a goroutine body or
+// a piece of a round factored out into its own function), the static call / go / defer sites in its
+// own package. Its parameters are bound there exactly as a closure's are at its call sites. Exported
+// functions and interface-reachable methods have callers the module does not contain: no binding.
+func helperCallSites(fn *ssa.Function) []ssa.CallInstruction {
+	if out, ok := helperSiteCache[fn]; ok {
+		return out
+	}
+	helperSiteCache[fn] = nil
+	if CurrentProg == nil || fn.Pkg == nil || fn.Pkg.Pkg == nil || fn.Synthetic != "" {
+		return nil
+	}
+	n := fn.Name()
+	if n == "" || n == "init" || !(n[0] >= 'a' && n[0] <= 'z') {
+		return nil
+	}
+	var out []ssa.CallInstruction
+	for _, f := range CurrentProg.ModuleFuncs(false) {
+		if f.Pkg == nil || f.Pkg != fn.Pkg {
+			continue
+		}
+		for _, c := range Calls(f) {
+			if cc := c.Common(); !cc.IsInvoke() {
+				if g, ok := cc.Value.(*ssa.Function); ok && g == fn {
+					out = append(out, c)
+				}
+			}
+		}
+	}
+	helperSiteCache[fn] = out
+	return out
 }
